@@ -37,7 +37,7 @@ Variable sm : sessmap.
 
 Definition rinv (r : rstate) : Prop :=
   inv_num (r_x r) /\
-  Forall (fun z => z_deleted z = true) (r_zomb r) /\
+  Forall (fun z => z_deleted z = true /\ z_inflight z = None) (r_zomb r) /\
   (forall n, In (n, true) (r_issued r) -> n <= hwm (r_x r)) /\
   issue_ok (r_issued r).
 
@@ -111,16 +111,20 @@ Lemma zpub_deleted r f i z sid content noecho :
   z_deleted z = true -> zpub sm r f i z sid content noecho = (r, [(sid, Ctrl 503 [])]).
 Proof. intros D. unfold zpub. rewrite D. reflexivity. Qed.
 
-Lemma rstep_inv r a r' o : rinv r -> rstep dr nr sm true r a = Some (r', o) -> rinv r'.
+Lemma zomb_get r i z : Forall (fun z => z_deleted z = true /\ z_inflight z = None) (r_zomb r) ->
+  nth_error (r_zomb r) i = Some z -> z_deleted z = true /\ z_inflight z = None.
+Proof. intros Z NE. rewrite Forall_forall in Z. apply Z. eapply nth_error_In. exact NE. Qed.
+
+Lemma rstep_inv r a r' o : rinv r -> mid_free a = true -> rstep dr nr sm true r a = Some (r', o) -> rinv r'.
 Proof.
-  intros [I [Z [B K]]] H. destruct a; cbn [rstep] in H.
+  intros [I [Z [B K]]] MF H. destruct a; cbn [rstep] in H; try discriminate MF.
   - (* RReq *)
     destruct (zfind (op_sid o0) 0 (r_zomb r)) as [i|] eqn:ZF.
     + destruct (nth_error (r_zomb r) i) as [z|] eqn:NE; destruct o0; try discriminate;
         try (inv H; exact (conj I (conj Z (conj B K)))).
-      rewrite zpub_deleted in H.
-      * inv H. exact (conj I (conj Z (conj B K))).
-      * rewrite Forall_forall in Z. apply Z. eapply nth_error_In. exact NE.
+      destruct (zomb_get r i z Z NE) as [ZD ZI]. rewrite ZI in H.
+      rewrite zpub_deleted in H by exact ZD.
+      inv H. exact (conj I (conj Z (conj B K))).
     + pose proof (step_f_inv_num dr nr sm (r_x r) (f, o0) I) as I1.
       pose proof (hwm_step_f (r_x r) (f, o0) I) as M.
       destruct (step_f dr nr sm (r_x r) (f, o0)) as [x1 o1] eqn:SF. cbn [fst] in *.
@@ -148,28 +152,35 @@ Proof.
     destruct (r_pend r); [inv H; exact (conj I (conj Z (conj B K)))|].
     destruct (r_x r) as [s [c|] n0] eqn:X; cbn [ca st] in H; inv H; unfold rinv; cbn [r_x r_zomb r_issued].
     + split; [apply (inv_num_unload s c n0 0); exact I|].
-      split; [apply Forall_app; split; [exact Z|constructor; [reflexivity|constructor]]|].
+      split; [apply Forall_app; split; [exact Z|constructor; [split; reflexivity|constructor]]|].
       split; [|exact K]. intros m Hm. specialize (B m Hm). unfold hwm in *. cbn [ca st] in *.
       destruct I as [_ [_ [_ [B2 _]]]]. cbn [st ca] in B2. lia.
     + split; [exact I|]. split; [exact Z|]. split; [exact B|exact K].
   - (* RZPub *)
     destruct (nth_error (r_zomb r) i) as [z|] eqn:NE; [|discriminate].
+    destruct (zomb_get r i z Z NE) as [ZD ZI]. rewrite ZI in H.
     destruct (attached (z_ca z) sid); [|discriminate].
-    rewrite zpub_deleted in H.
-    + inv H. exact (conj I (conj Z (conj B K))).
-    + rewrite Forall_forall in Z. apply Z. eapply nth_error_In. exact NE.
+    rewrite zpub_deleted in H by exact ZD.
+    inv H. exact (conj I (conj Z (conj B K))).
   - (* RZExit *)
-    destruct (nth_error (r_zomb r) i); [|discriminate]. inv H. unfold rinv. cbn [r_x r_zomb r_issued].
+    destruct (nth_error (r_zomb r) i) as [z|] eqn:NE; [|discriminate].
+    destruct (zomb_get r i z Z NE) as [ZD ZI]. rewrite ZI in H.
+    inv H. unfold rinv. cbn [r_x r_zomb r_issued].
     split; [exact I|]. split; [apply Forall_zdrop; exact Z|]. split; [exact B|exact K].
+  - (* RZFinish: no instance was unregistered inside a handler *)
+    destruct (nth_error (r_zomb r) i) as [z|] eqn:NE; [|discriminate].
+    destruct (zomb_get r i z Z NE) as [ZD ZI]. rewrite ZI in H. discriminate.
 Qed.
 
-Lemma rrun_inv l : forall r r' os, rinv r -> rrun dr nr sm true r l = Some (r', os) -> rinv r'.
+Lemma rrun_inv l : forall r r' os, rinv r -> forallb mid_free l = true ->
+  rrun dr nr sm true r l = Some (r', os) -> rinv r'.
 Proof.
-  induction l as [|a l IH]; intros r r' os I H; cbn [rrun] in H.
+  induction l as [|a l IH]; intros r r' os I MF H; cbn [rrun] in H.
   - inv H. exact I.
-  - destruct (rstep dr nr sm true r a) as [[r1 o1]|] eqn:S; [|discriminate].
+  - cbn [forallb] in MF. apply andb_true_iff in MF. destruct MF as [MF1 MF2].
+    destruct (rstep dr nr sm true r a) as [[r1 o1]|] eqn:S; [|discriminate].
     destruct (rrun dr nr sm true r1 l) as [[r2 os2]|] eqn:R; [|discriminate].
-    inv H. eapply IH; [|exact R]. eapply rstep_inv; eauto.
+    inv H. eapply IH; [|exact MF2|exact R]. eapply rstep_inv; eauto.
 Qed.
 
 Lemma rinv_init s : fresh s -> rinv (mkR (mkState s None 0) 0 [] []).
@@ -183,8 +194,8 @@ Lemma zombie_refuses r i z sid content noecho :
   rinv r -> nth_error (r_zomb r) i = Some z -> attached (z_ca z) sid = true ->
   rstep dr nr sm true r (RZPub i sid content noecho) = Some (r, [(sid, Ctrl 503 [])]).
 Proof.
-  intros [_ [Z _]] NE AT. cbn [rstep]. rewrite NE, AT. rewrite zpub_deleted; [reflexivity|].
-  rewrite Forall_forall in Z. apply Z. eapply nth_error_In. exact NE.
+  intros [_ [Z _]] NE AT. cbn [rstep]. rewrite NE. destruct (zomb_get r i z Z NE) as [ZD ZI].
+  rewrite ZI, AT. rewrite zpub_deleted by exact ZD. reflexivity.
 Qed.
 
 (* ------------------------------------------------------------------ *)
@@ -303,6 +314,23 @@ Definition race_witness : list rop :=
    RReq NoFault (OSub 2 [] false);                (* a second instance is loaded from the store *)
    RZPub 0 1 7 false;                             (* the old instance handles a {pub} queued before its exit message *)
    RReq NoFault (OPub 2 8 false)].                (* the new instance handles a {pub} *)
+
+(* an unregistration that lands inside the publish handler of the registered instance: the
+   second instance and the first one both pass lastID+1 to Save, in either order *)
+Definition race_witness_mid (late_first : bool) : list rop :=
+  [RReq NoFault (OSub 1 [] false); RReq NoFault (OLeave 1 false); RTimeout;
+   RReq NoFault (OSub 1 [] false);
+   RHubUnregMid 1 7 false;                        (* unregistered between its isInactive check and its Save *)
+   RReq NoFault (OSub 2 [] false)]                (* a second instance is loaded: lastID 0 *)
+  ++ (if late_first then [RZFinish 0; RReq NoFault (OPub 2 8 false)]
+      else [RReq NoFault (OPub 2 8 false); RZFinish 0]).
+
+Lemma race_witness_mid_issued late_first :
+  option_map (fun r => r_issued (fst r))
+    (rrun (fun _ _ => None) (fun x => x) [(1%N, 1%N); (2%N, 1%N)] true
+          (mkR (mkState race_witness_store None 0) 0 [] []) (race_witness_mid late_first))
+  = Some [(1, true); (1, false)].
+Proof. destruct late_first; vm_compute; reflexivity. Qed.
 
 Lemma race_witness_issued mark :
   option_map (fun r => r_issued (fst r))
